@@ -4,7 +4,7 @@ from .. import grouplab as G
 
 ID = "C01"
 LEVEL = "exploration"
-RULE = ("trees {A=base(L), B=base(L) with one byte flipped at offset o, C=base(L)} (+ hard-link and symlink/-S variants) "
+RULE = ("trees {A=base(L), B=base(L) with one byte flipped at offset o, C=base(L)} and {A1=A2=base(L), B1=B2=flipped} (two classes of equal length that survive the early stages) (+ hard-link and symlink/-S variants) "
         "for L in {0,1,4095,4096,4097,16383,16384,16385,65535,65536,65537,131073} and o in "
         "{0,4095,4096,16383,16384,L-4097,L-4096,L/2,L-1}; x hash function x pinned disk kind (x cache, prefix/suffix "
         "sizes, -t 1 in thorough); transform sub-space: keep/shrink/double/prefix programs x 5 I/O modes on trees that "
@@ -34,6 +34,13 @@ def tree_plain(L, o):
     if o is not None:
         t.insert(1, {"p": "r/d1/B", "k": "file", "c": ["flip", L, 0, o]})
     return t
+
+
+def tree_two(L, o):
+    """Two classes of equal length, two members each: both survive the early stages as separate groups,
+    so a stage that loses the distinction merges them."""
+    return [{"p": "r/d1/A1", "k": "file", "c": ["base", L, 0]}, {"p": "r/d2/A2", "k": "file", "c": ["base", L, 0]},
+            {"p": "r/d1/B1", "k": "file", "c": ["flip", L, 0, o]}, {"p": "r/d2/B2", "k": "file", "c": ["flip", L, 0, o]}]
 
 
 def tree_hard(L, o):
@@ -83,6 +90,14 @@ def cases(tier, seed):
             for h in hashes:
                 for d in disks:
                     out.append(mk(tree_plain(L, o), "plain", L, o, h, d))
+                    if o is not None:
+                        out.append(mk(tree_two(L, o), "two", L, o, h, d))
+            if o is not None:
+                for d in disks:
+                    # prefix and/or suffix covering the whole file
+                    for extra in (["--max-prefix-size", "1048576"], ["--max-suffix-size", "1048576"],
+                                  ["--max-prefix-size", "1048576", "--max-suffix-size", "1048576"]):
+                        out.append(mk(tree_two(L, o), "two", L, o, "metro", d, extra))
             if not quick:
                 for d in DISKS:
                     for px in (None, 1, 4096, 8192, 1 << 20):
@@ -95,6 +110,7 @@ def cases(tier, seed):
                             if sx is not None:
                                 extra += ["--max-suffix-size", str(sx)]
                             out.append(mk(tree_plain(L, o), "plain", L, o, "metro", d, extra))
+                            out.append(mk(tree_two(L, o), "two", L, o, "metro", d, extra))
                 for h in ("metro", "sha256"):
                     out.append(mk(tree_plain(L, o), "plain", L, o, h, "ssd", ["--cache"], repeat=2))
                     out.append(mk(tree_plain(L, o), "plain", L, o, h, "ssd", ["-t", "1"]))
